@@ -1,11 +1,14 @@
 (* Props/C14.v — spanning-tree enumeration visits every reachable flux sector exactly once.
    Model: coq/Model/SpanTree.v (graph_utils.plaquette_spanning_tree, flux_finder.n_to_ujk_flipped)
    on the incidence tables ep = edges.adjacent_plaquettes (None = INVALID) and
-   pes = [p.edges for p in plaquettes]; fluxes from coq/Model/Flux.v.  Proofs: Proofs/SpanTreeFacts.v.
+   pes = [p.edges for p in plaquettes]; fluxes from coq/Model/Flux.v.  Proofs: Proofs/SpanTreeFacts.v,
+   SpanTreeComplete.v (loop invariant), SpanTreeLattice.v (tables of the lattice model, via C01/C02 lemmas).
 
    [order] is the candidate-order oracle: with shortest_edges_only the float distances only decide
-   in which order the boundary edges are scanned; every theorem holds for EVERY order function
-   (no hypothesis on it at all), hence "with or without the shortest-edge preference".
+   in which order the boundary edges are scanned; the theorems hold for EVERY order function (no
+   hypothesis on it at all), except C14_tree_complete / C14_model_end_to_end which ask that it
+   scans every boundary edge (true of the identity, of any sort, of the replay oracle) — hence
+   "with or without the shortest-edge preference".
 
    NOT covered by a theorem (S/K only, harness/c14.py):
    * "without a cycle": proved here as "F-1 distinct edges connecting all F plaquettes" (a connected
